@@ -44,6 +44,10 @@ type Check struct {
 	// FatalIsViolation: a worker killed by a fatal runtime error inside ion-go is
 	// a violation of this property (otherwise an internal error).
 	WorkerMemMB int
+	// WorkerVMemKB sets `ulimit -v` for workers (0 = none).
+	WorkerVMemKB int
+	// HangSec enables the parent's watchdog on the announced case (0 = off).
+	HangSec int
 }
 
 var registry = map[string]*Check{}
@@ -259,6 +263,7 @@ func RunCheck(id, tier, verifDir, self string) int {
 		err    error
 		stderr string
 		died   bool
+		hung   bool
 		ann    string
 	}
 	results := make([]wres, n)
@@ -269,6 +274,11 @@ func RunCheck(id, tier, verifDir, self string) int {
 			defer wg.Done()
 			base := filepath.Join(scratch, fmt.Sprintf("w%d", i))
 			cmd := exec.Command(self, "worker", id, tier, strconv.Itoa(i), strconv.Itoa(n), base)
+			if ck.WorkerVMemKB > 0 {
+				// address-space limit: a runaway allocation kills this worker, not the sandbox
+				cmd = exec.Command("/bin/sh", "-c", fmt.Sprintf("ulimit -v %d; exec \"$0\" \"$@\"", ck.WorkerVMemKB),
+					self, "worker", id, tier, strconv.Itoa(i), strconv.Itoa(n), base)
+			}
 			cmd.Env = append(append(os.Environ(), "GOMAXPROCS=1", "GOGC=400", "VERIF_SCRATCH="+scratch), env...)
 			if ck.WorkerMemMB > 0 {
 				cmd.Env = append(cmd.Env, fmt.Sprintf("GOMEMLIMIT=%dMiB", ck.WorkerMemMB))
@@ -276,8 +286,37 @@ func RunCheck(id, tier, verifDir, self string) int {
 			var eb bytes.Buffer
 			cmd.Stderr = &eb
 			cmd.Stdout = &eb
-			err := cmd.Run()
+			var err error
+			hung := false
+			if ck.HangSec > 0 {
+				// watchdog: a worker whose announced case does not change for HangSec seconds is killed
+				if err = cmd.Start(); err == nil {
+					done := make(chan error, 1)
+					go func() { done <- cmd.Wait() }()
+					last, lastChange := "", time.Now()
+				loop:
+					for {
+						select {
+						case err = <-done:
+							break loop
+						case <-time.After(2 * time.Second):
+							b, _ := os.ReadFile(base + ".announce")
+							if string(b) != last {
+								last, lastChange = string(b), time.Now()
+							} else if last != "" && time.Since(lastChange) > time.Duration(ck.HangSec)*time.Second {
+								cmd.Process.Kill()
+								err = <-done
+								hung = true
+								break loop
+							}
+						}
+					}
+				}
+			} else {
+				err = cmd.Run()
+			}
 			r := &results[i]
+			r.hung = hung
 			r.stderr = eb.String()
 			if err != nil {
 				r.err = err
@@ -310,7 +349,20 @@ func RunCheck(id, tier, verifDir, self string) int {
 		r := &results[i]
 		if r.died {
 			tot.Exhaustive = false
-			if ionFrame.MatchString(r.stderr) && (strings.Contains(r.stderr, "fatal error:") || strings.Contains(r.stderr, "panic:")) {
+			if r.hung {
+				lines := strings.SplitN(r.ann, "\n", 2)
+				cs := ""
+				if len(lines) == 2 {
+					cs = lines[1]
+				}
+				viols = append(viols, &Violation{
+					Failure:        Failure{Class: "hang", Key: "no-progress", Detail: fmt.Sprintf("worker made no progress for %d s on this case", ck.HangSec)},
+					Case:           cs,
+					Witness:        cs,
+					WitnessFailure: Failure{Class: "hang", Key: "no-progress", Detail: fmt.Sprintf("worker made no progress for %d s on this case", ck.HangSec)},
+					Count:          1,
+				})
+			} else if ionFrame.MatchString(r.stderr) && (strings.Contains(r.stderr, "fatal error:") || strings.Contains(r.stderr, "panic:")) {
 				lines := strings.SplitN(r.ann, "\n", 2)
 				cs := ""
 				if len(lines) == 2 {
